@@ -34,6 +34,7 @@ def base_text(name):
 CELL_VALUES = [
     "", "default", "DEFAULT", "0", "1", "-1", "2", "3", "64", "999", "1e3", "1.5", "0x10", " 7 ", "+5", "1_0", "٣", "TRUE", "false", "yes", "maybe",
     "high_quality", "low_delay", "unconstrained", "hd", "pictures_are_fields", "le_gall_5_3", "fidelity", "color_4_2_0", "interlaced",
+    "column_A", "column_B", "column_C", "column_D", "column_E", "minimal", "hd",
     "custom_format", "hd1080p_50", "0 0 0 0", "1 2 3", "1 2 3 4 5 6 7", "a b c d", "-1 -1 -1 -1", "\"", "\"x", "a,b", "9" * 30, "9" * 5000, "\x00", "\ufeff", "name",
 ]
 ROW_KEYS = ["name", "level", "profile", "base_video_format", "picture_coding_mode", "frame_width", "frame_height", "color_diff_format_index", "source_sampling",
@@ -69,6 +70,25 @@ def apply_text_fault(text, f):
         c = 1 + f["col"] % max(1, len(cells) - 1) if len(cells) > 1 else 0
         if c < len(cells):
             cells[c] = f["v"]
+        lines[n] = ",".join(cells)
+        return "\n".join(lines)
+    if k == "name_collision":
+        # column i is explicitly given the default name ("column_<letter>") of
+        # column j, whose own name cell is blanked
+        idxs = [n for n, l in enumerate(lines) if l.split(",")[0].strip() == "name"]
+        if not idxs:
+            return text
+        n = idxs[0]
+        cells = lines[n].split(",")
+        ncol = len(cells) - 1
+        if ncol < 2:
+            return text
+        i, j = f["i"] % ncol, f["j"] % ncol
+        if i == j:
+            j = (j + 1) % ncol
+        letters = "ABCDEFGHIJKLMNOPQRSTUVWXYZ"
+        cells[1 + i] = "column_" + letters[(1 + j) % 26]
+        cells[1 + j] = ""
         lines[n] = ",".join(cells)
         return "\n".join(lines)
     if k == "add_row":
@@ -127,7 +147,7 @@ class C28(Spec):
         nf = 0 if r < 0.05 else 1 if r < 0.55 else 2 if r < 0.8 else rng.choice([3, 4])
         faults = []
         for _ in range(nf):
-            k = rng.choice(["trunc", "drop_line", "dup_line", "swap_lines", "cell", "cell", "cell", "cell", "add_row", "add_col", "char", "ins", "crlf", "bom"])
+            k = rng.choice(["trunc", "drop_line", "dup_line", "swap_lines", "cell", "cell", "cell", "cell", "add_row", "add_col", "char", "ins", "crlf", "bom", "name_collision"])
             f = {"k": k}
             if k == "trunc":
                 f["at"] = rng.randrange(len(text) + 1)
@@ -135,8 +155,10 @@ class C28(Spec):
                 f["i"] = rng.randrange(nlines)
             elif k == "swap_lines":
                 f["i"], f["j"] = rng.randrange(nlines), rng.randrange(nlines)
+            elif k == "name_collision":
+                f["i"], f["j"] = rng.randrange(8), rng.randrange(8)
             elif k == "cell":
-                f["row"] = rng.choice(ROW_KEYS) if rng.random() < 0.85 else rng.randrange(nlines)
+                f["row"] = rng.choice(ROW_KEYS + ["name", "name", "name"]) if rng.random() < 0.85 else rng.randrange(nlines)
                 f["col"] = rng.randrange(8)
                 f["v"] = rng.choice(CELL_VALUES)
             elif k == "add_row":
@@ -192,6 +214,12 @@ class C28(Spec):
                 return Outcome(VIOLATION, events, sig="C28/empty-explanation", detail="InvalidCodecFeaturesError without a message", stats=stats, nontrivial=changed, key="%s|%s|invalid" % (case["base"], kinds), ticks=ticks)
             return Outcome(OK, events, stats=stats, nontrivial=changed, key="%s|%s|invalid" % (case["base"], kinds), ticks=ticks)
         events.append(("returned", list(out) if isinstance(out, dict) else type(out).__name__))
+        # every column the file defines must come back (names are unique, so
+        # none may silently replace another): count the defined columns with
+        # the harness's own reading of the documented layout
+        ncols = defined_columns(text)
+        if isinstance(out, dict) and ncols is not None and len(out) != ncols:
+            return Outcome(VIOLATION, events, sig="C28/column-lost", detail="the file defines %d configurations but %d were returned (names %r) — a duplicate name replaced a column without InvalidCodecFeaturesError (faults %r on %s)" % (ncols, len(out), list(out), case["faults"], case["base"]), stats=stats, nontrivial=changed, key="%s|%s|lost" % (case["base"], kinds), ticks=ticks)
         stats["outcome:returned"] += 1
         key = "%s|%s|returned%d" % (case["base"], kinds, len(out) if hasattr(out, "__len__") else -1)
         problem = domain_problem(out)
@@ -203,6 +231,29 @@ class C28(Spec):
     def extra_evidence(self, merged):
         st = merged["stats"]
         return {"faults_injected": {k[6:]: v for k, v in st.items() if k.startswith("fault:")}, "outcomes": {k[8:]: v for k, v in st.items() if k.startswith("outcome:")}}
+
+
+def defined_columns(text):
+    """Number of configuration columns the CSV text defines, by the documented
+    layout: rows whose first cell is empty or starts with '#' are ignored; a
+    column is defined if any remaining row has a non-blank cell in it."""
+    import csv as _csv
+
+    try:
+        rows = list(_csv.reader(io.StringIO(text.lstrip("\ufeff"), newline=None)))
+    except Exception:  # noqa: BLE001
+        return None
+    cols = set()
+    for row in rows:
+        if not row:
+            continue
+        key = row[0].strip()
+        if not key or key.startswith("#"):
+            continue
+        for i, v in enumerate(row[1:]):
+            if v.strip():
+                cols.add(i)
+    return len(cols)
 
 
 def _is_int(v):
